@@ -1563,7 +1563,7 @@ func (rt *rtset) argMayHit(t types.Type, seen map[string]bool, depth int) bool {
 
 func main() {
 	repo := flag.String("repo", "/repo", "repository root")
-	out := flag.String("out", "", "Coq output file")
+	out := flag.String("out", "", "directory for Effects.v (the table) and EffectsOk.v (the Example)")
 	jsonOut := flag.String("json", "", "JSON output file")
 	verbose := flag.Bool("v", false, "verbose")
 	whyType := flag.String("why", "", "print how this canonical type gets into each receiver's type structure")
@@ -1824,7 +1824,16 @@ func main() {
 	}
 
 	if *out != "" {
-		if err := os.WriteFile(*out, []byte(renderCoq(rows, a.usedWL)), 0o644); err != nil {
+		if err := os.WriteFile(filepath.Join(*out, "Effects.v"), []byte(renderCoq(rows, a.usedWL)), 0o644); err != nil {
+			fmt.Fprintln(os.Stderr, err)
+			os.Exit(2)
+		}
+
+		ok := "(* GENERATED by harness/tools/effects — do not edit. *)\n" +
+			"From HV Require Import Base.Prelude C17.Model Gen.Effects.\n\n" +
+			"(** every receiver-write effect extracted from the current source belongs to a recorded finding *)\n" +
+			"Example effects_read_only : forallb row_ok generated_table = true.\nProof. vm_compute. reflexivity. Qed.\n"
+		if err := os.WriteFile(filepath.Join(*out, "EffectsOk.v"), []byte(ok), 0o644); err != nil {
 			fmt.Fprintln(os.Stderr, err)
 			os.Exit(2)
 		}
@@ -1888,7 +1897,7 @@ func renderCoq(rows []Row, wl map[string]string) string {
 	var sb strings.Builder
 
 	sb.WriteString("(* GENERATED by harness/tools/effects from the current source of /repo — do not edit. *)\n")
-	sb.WriteString("From HV Require Import Base.Prelude C17.Model.\nOpen Scope string_scope.\n\n")
+	sb.WriteString("From HV Require Import Base.Prelude C17.Model.\nOpen Scope string_scope.\nOpen Scope list_scope.\n\n")
 	sb.WriteString("Definition generated_table : list mech_row := [\n")
 
 	for i, r := range rows {
@@ -1944,11 +1953,10 @@ func renderCoq(rows []Row, wl map[string]string) string {
 	sb.WriteString("(* callees without analysed body that received receiver-derived pointers and are trusted read-only:\n")
 
 	for _, k := range keys {
-		fmt.Fprintf(&sb, "   %s -- %s\n", k, strings.ReplaceAll(wl[k], "*)", "* )"))
+		fmt.Fprintf(&sb, "   %s -- %s\n", strings.ReplaceAll(k, "(*", "( *"), strings.ReplaceAll(strings.ReplaceAll(wl[k], "*)", "* )"), "(*", "( *"))
 	}
 
-	sb.WriteString("*)\n\n")
-	sb.WriteString("Example effects_read_only : forallb row_ok generated_table = true.\nProof. vm_compute. reflexivity. Qed.\n")
+	sb.WriteString("*)\n")
 
 	return sb.String()
 }
